@@ -62,6 +62,14 @@ Theorem C20_connections_independent : forall completes fails decrypt sched ss i 
 Proof. intros completes fails decrypt. exact (interleaving_independent tconn tin tout (tstep completes fails decrypt)). Qed.
 Print Assumptions C20_connections_independent.
 
+(* ... and so the order in which the connections' bytes happen to arrive relative to one another matters to none of them *)
+Theorem C20_schedule_irrelevant : forall completes fails decrypt sched1 sched2 ss i s,
+  nth_error ss i = Some s -> ops_of tin i sched1 = ops_of tin i sched2 ->
+  proj tout i (irun tconn tin tout (tstep completes fails decrypt) ss sched1) =
+  proj tout i (irun tconn tin tout (tstep completes fails decrypt) ss sched2).
+Proof. intros completes fails decrypt. exact (schedule_irrelevant tconn tin tout (tstep completes fails decrypt)). Qed.
+Print Assumptions C20_schedule_irrelevant.
+
 Theorem C20_premises_satisfiable :
   let completes := fun a => beq a (B "abc") in
   let fails := fun a => negb (is_prefix a (B "abc")) && negb (is_prefix (B "abc") a) in
